@@ -19,10 +19,12 @@ ASSUMPTIONS = [
     'remove(x) is modelled as list.remove on the same objects (first element equal to x)',
 ]
 
-GOOD = ['{a}', '[c]', '{}', '[]', '{{x}}', '[a[0]]']
+GOOD = ['{a}', '[c]', '{}', '[]', '{{x}}', '[a[0]]', '{a\\\\}', '[r \\\\]', '{a\\}']
 BAD = ['{x', 'x]', '[x}', '{x]', 'x', '', '{x}\n', '[y]\n', ' {x}']
 IDX = [0, 1, -1, -2, 'len', 'len+3', '-len-1', '-len-3']
-INITS = [(), ('G1',), ('G1', 'K'), ('G1', 'G2'), ('G1', 'G2', 'K')]
+INITS = [(), ('G1',), ('G1', 'K'), ('G1', 'G2'), ('G1', 'G2', 'K'),
+         # a brace-less command argument, as the parser stores it for \def\foo{x} or \textbf\alpha
+         ('C', 'G1'), ('G1', 'C', 'K')]
 
 
 def op_templates(reduced=False):
@@ -80,7 +82,7 @@ class Marker:
 
 def run_sequence(init, ops, flags=None):
     from TexSoup.data import TexCmd, TexArgs, BraceGroup, BracketGroup
-    pool = {'G1': BraceGroup('a'), 'G2': BraceGroup('a'), 'K': BracketGroup('b')}
+    pool = {'G1': BraceGroup('a'), 'G2': BraceGroup('a'), 'K': BracketGroup('b'), 'C': TexCmd('foo')}
     owner = TexCmd('cmd', args=[pool[x] for x in init])
     args = owner.args
     m = [pool[x] for x in init]
@@ -299,6 +301,7 @@ def _fails(init, ops, kind):
 def plan(ctx):
     nshard = 16
     shards = [('bfs', 3, i, nshard, False) for i in range(nshard)]
+    shards += [('bfs3c', 3, i, nshard, True) for i in range(nshard)]      # reduced set, depth exactly 3, every initial list
     if ctx.thorough:
         shards += [('bfs4', 4, i, 64, True) for i in range(64)]
     rnd = [('rnd', ctx.pick(300, 5000), i) for i in range(16)]
@@ -314,7 +317,13 @@ def shard_bfs(ctx, shard):
     seen = set()
     total = 0
     for init in INITS:
-        for d in ([depth] if reduced else range(1, depth + 1)):
+        if 'C' in init and not reduced:
+            # the lists with a command argument: full operation set to depth 2, reduced set at depth 3
+            ops_all, depths = OPS, range(1, min(depth, 2) + 1)
+        else:
+            ops_all, depths = (OPS_REDUCED if reduced else OPS), ([depth] if reduced else range(1, depth + 1))
+        nops = len(ops_all)
+        for d in depths:
             for count, seq in enumerate(itertools.product(range(nops), repeat=d)):
                 if count % nshard != idx:
                     continue
